@@ -64,6 +64,7 @@ LawChain(t, S) ==
 RECURSIVE DebugHas(_, _)
 DebugHas(t, c) ==
     CASE t.op = "debug" -> c[1] <= 31
+      [] t.op = "overlay" -> \E k \in 1..Len(t.srcs) : DebugHas(t.srcs[k], c)
       [] t.op = "zoom" -> (t.min < 0 \/ c[1] >= t.min) /\ (t.max < 0 \/ c[1] <= t.max) /\ DebugHas(t.src, c)
       [] t.op = "bbox" -> DContains(GeoSel(t.geo, c[1]), c[2], c[3]) /\ DebugHas(t.src, c)
 DebugFails(r) ==
@@ -74,6 +75,9 @@ DebugFails(r) ==
      Fails("coverage", \A z \in 0..r.maxlevel : CovAt(r.cov, z) = CovOf(t, <<>>, z)) \cup
      Fails("lookup", \A i \in 1..Len(r.lookups) :
               LET a == r.lookups[i] IN IF DebugHas(t, <<a[1], a[2], a[3]>>) THEN a[4] > 0 ELSE a[4] = 0) \cup
+     \* C03 for pipeline operations: whatever is returned lies inside the advertised coverage
+     Fails("cov_contains", \A i \in 1..Len(r.lookups) :
+              LET a == r.lookups[i] IN a[4] <= 0 \/ DContains(CovAt(r.cov, a[1]), a[2], a[3])) \cup
      \* every coordinate has its own content
      Fails("debug_distinct", \A i, j \in 1..Len(r.lookups) :
               (i # j /\ r.lookups[i][4] > 0 /\ r.lookups[j][4] > 0) => r.lookups[i][4] # r.lookups[j][4]) \cup
@@ -93,6 +97,8 @@ PipeFails(r) ==
           Fails("lookup", \A i \in 1..Len(r.lookups) :
                    LET a == r.lookups[i] IN
                    IF a[4] = 0 THEN \A x \in want : CoordOf(x) # <<a[1], a[2], a[3]>> ELSE a \in want) \cup
+          Fails("cov_contains", \A i \in 1..Len(r.lookups) :
+                   LET a == r.lookups[i] IN a[4] <= 0 \/ DContains(CovAt(r.cov, a[1]), a[2], a[3])) \cup
           Fails("stream_sem", \A i \in 1..Len(r.streams) :
                    LET s == r.streams[i] IN
                    s.status = "ok" /\ SameBag(s.res, {x \in want : InBox(x, s.box)})) \cup
